@@ -62,6 +62,8 @@ type Contract struct {
 	Reveal   []string // opaque predicates unfolded in every obligation of this function
 	Updates  []string // ghost variables the function may change
 	Befores  map[string][]Clause // assertions proved right before a call site
+	BeforeLets map[string][]Clause // ghost snapshots taken right before a call site (Name = ghost name)
+	AfterLets  map[string][]Clause // ghost snapshots taken after the statement containing a call site
 	Region   string   // structural path of the verified sub-tree (select#0/case#0 ...); empty = whole body
 }
 
@@ -243,6 +245,7 @@ func parseSpecExpr(text string) (ast.Expr, error) {
 	return e, nil
 }
 
+var letRe = regexp.MustCompile(`^let\s+([A-Za-z_][A-Za-z0-9_]*)\s*=\s*(.*)$`)
 var clauseRe = regexp.MustCompile(`^(requires|ensures|modifies|invariant|assert|lemma)(\[[A-Za-z0-9_\-\.]+\])?\s+(.*)$`)
 
 func parseGhostList(s string) ([]GhostVar, error) {
@@ -464,6 +467,17 @@ func (cs *ContractSet) loadContractFile(path, pkgPath string) error {
 				if !strings.Contains(f[0], "#") {
 					f[0] += "#0"
 				}
+				if lm := letRe.FindStringSubmatch(strings.TrimSpace(f[1])); lm != nil {
+					e, err := parseSpecExpr(lm[2])
+					if err != nil {
+						return fail(err)
+					}
+					if cur.BeforeLets == nil {
+						cur.BeforeLets = map[string][]Clause{}
+					}
+					cur.BeforeLets[f[0]] = append(cur.BeforeLets[f[0]], Clause{Name: lm[1], Text: lm[2], Expr: e})
+					continue
+				}
 				m := clauseRe.FindStringSubmatch(strings.TrimSpace(f[1]))
 				if m == nil || m[1] != "assert" {
 					return fail(fmt.Errorf("before needs assert"))
@@ -481,6 +495,17 @@ func (cs *ContractSet) loadContractFile(path, pkgPath string) error {
 				}
 				if len(f) < 2 {
 					return fail(fmt.Errorf("bad at"))
+				}
+				if lm := letRe.FindStringSubmatch(strings.TrimSpace(f[1])); lm != nil {
+					e, err := parseSpecExpr(lm[2])
+					if err != nil {
+						return fail(err)
+					}
+					if cur.AfterLets == nil {
+						cur.AfterLets = map[string][]Clause{}
+					}
+					cur.AfterLets[f[0]] = append(cur.AfterLets[f[0]], Clause{Name: lm[1], Text: lm[2], Expr: e})
+					continue
 				}
 				m := clauseRe.FindStringSubmatch(strings.TrimSpace(f[1]))
 				if m == nil || m[1] != "assert" {
